@@ -160,7 +160,11 @@ class Monitors:
                 raise Violation("C11", f"IDLE answered to {w} while no trial is running anywhere")
         elif t.status == "STOPPED":
             if rq_before:
-                raise Violation("C02", f"STOPPED although retries {rq_before} are pending")
+                v = Violation("C02", f"STOPPED although retries {rq_before} are pending")
+                # the same answer also breaks the retry policy: the queued trial is not issued again, it stays INVALID for good
+                v.also = [Violation("C03", f"trial(s) {rq_before} wait for their retry but the tuner is told STOPPED: an INVALID trial is never "
+                                           f"issued again and never becomes COMPLETED or FAILED", {"tag": "retry-never-issued"})]
+                raise v
         if o.max_trials and n_before >= o.max_trials and not rq_before and t.status != "STOPPED":
             raise Violation("C02", f"budget used up, no retry pending, but answer is {t.status}")
 
@@ -551,6 +555,13 @@ def scenario(sseed, kind, mode, res, crash_at=None, second=None, maxlen=60):
                         tags["second-crash-armed"] += 1
             if maxpar >= 2:
                 tags["parallel"] += 1
+        except Violation as v:
+            # the scenario ends here, but what was exchanged up to this point is still compared with the model: a change
+            # that makes one monitor fire usually makes the implementation and the model disagree as well, and that
+            # disagreement concerns every property served by this suite, not only the monitor's own
+            n_ok = len(expect)
+            v.partial = (lines[:n_ok], list(expect), dict(doc))
+            raise
         finally:
             gate.remove()
     doc["tags"] = dict(tags)
@@ -643,6 +654,10 @@ def run(seed, tier, n=None, kinds=KINDS, modes=("plain", "plain", "reload", "cra
                 res.violations.append({"pid": vv.pid, "what": vv.what, "sig": vv.sig,
                                        "replay": {"suite": "oracle", "kind": kind, "mode": mode, "seed": sseed}})
             res.scenarios += 1
+            if getattr(v, "partial", None):
+                pl, pe, pd = v.partial
+                spans.append((len(all_lines), pl, pe, pd))
+                all_lines += pl
             continue
         res.scenarios += 1
         res.hist.update(tags)
